@@ -3,6 +3,7 @@ package main
 import (
 	"bufio"
 	"bytes"
+	"encoding"
 	"encoding/hex"
 	"fmt"
 	"io"
@@ -147,6 +148,27 @@ func init() {
 			bw.Flush()
 			if hs.Sum16() != want {
 				return fmt.Sprintf("bufio-feed-broken sum=%04x", hs.Sum16())
+			}
+			// a hash that can save and restore its state (encoding.BinaryMarshaler / Unmarshaler):
+			// checkpointing in the middle of the data changes nothing
+			if _, ok := dyncrc16.New().(encoding.BinaryMarshaler); ok {
+				for _, cut := range []int{0, 1, len(data) / 2, len(data) - 1, len(data)} {
+					if cut < 0 || cut > len(data) {
+						continue
+					}
+					h1 := dyncrc16.New()
+					h1.Write(data[:cut])
+					st, err := h1.(encoding.BinaryMarshaler).MarshalBinary()
+					h2 := dyncrc16.New()
+					h2.Write([]byte{1, 2, 3})
+					if u, ok := h2.(encoding.BinaryUnmarshaler); !ok || err != nil || u.UnmarshalBinary(st) != nil {
+						return "checkpoint-broken cannot-restore"
+					}
+					h2.Write(data[cut:])
+					if h2.Sum16() != want {
+						return fmt.Sprintf("checkpoint-broken cut=%d sum=%04x", cut, h2.Sum16())
+					}
+				}
 			}
 			if wb, ok := dyncrc16.New().(io.ByteWriter); ok {
 				for _, c := range data {
